@@ -185,7 +185,7 @@ def norm_kw_model(kw, names):
     return sorted([names[p], norm_val_model(x, names)] for p, x in kw)
 
 
-def norm_trace_model(trace, names, kinds=('start', 'default', 'emit', 'save')):
+def norm_trace_model(trace, names, kinds=('start', 'default', 'emit', 'save', 'sleep')):
     out = []
     for e in trace:
         if e[0] not in kinds:
@@ -212,7 +212,7 @@ def norm_outcome_model(o, names):
     return o
 
 
-def norm_trace_impl(trace, kinds=('start', 'default', 'emit', 'save')):
+def norm_trace_impl(trace, kinds=('start', 'default', 'emit', 'save', 'sleep')):
     return [e for e in trace if e[0] in kinds]
 
 
